@@ -370,7 +370,12 @@ def pipeline(ctx, pid, cases, sections, build_obs, batch=400, keep_failed=True):
             reqs.append({"tag": c["id"], "src": src, "out": os.path.join(d, "font.ttf")})
             if osrc:
                 reqs.append({"tag": c["id"] + "#oracle", "src": osrc, "out": os.path.join(d, "oracle.ttf")})
-        res = {r["tag"]: r for r in common.vh_batch(reqs, procs=8, timeout=3600)}
+        res = {r["tag"]: r for r in common.vh_batch(reqs, procs=8, timeout=3600) if r}
+        # a process that was killed from outside (loaded box) is not an outcome of the compiler: once more, alone
+        again = [q for q in reqs if (res.get(q["tag"]) or {}).get("outcome") in (None, "crash")]
+        for r in common.vh_batch(again, procs=2, timeout=3600):
+            if r:
+                res[r["tag"]] = r
         mreqs = []
         ok = []
         for c, d, (src, osrc) in zip(part, dirs, srcs):
@@ -394,6 +399,10 @@ def pipeline(ctx, pid, cases, sections, build_obs, batch=400, keep_failed=True):
             mreqs.append(measure_request(c, os.path.join(d, "font.ttf"), sections))
             ok.append((c, d))
         mres = {r.get("tag"): r for r in common.vh_batch(mreqs, procs=8, timeout=3600, module="instancing") if r}
+        again = [q for q in mreqs if not (mres.get(q["tag"]) or {}).get("ok")]
+        for r in common.vh_batch(again, procs=2, timeout=3600, module="instancing"):
+            if r:
+                mres[r.get("tag")] = r
         for c, d in ok:
             m = mres.get(c["id"])
             om = mres.get(c["id"] + "#oracle")
